@@ -1111,7 +1111,7 @@ fn main() {
     }
 
     // ---------------- generated ----------------
-    let n = if args.thorough() { 3000 } else { 330 };
+    let n = if args.thorough() { 6000 } else { 900 };
     for k in 0..n {
         let (mut case, man) = base_case(&mut rng, keys);
         let bounds = case.range.bounds(case.last);
